@@ -1,9 +1,9 @@
 CONSTANTS
   Sessions = {"A"}
-  Carriers = {1, 2, 3, 4, 5, 6, 7, 8, 9, 10, 11, 12, 13}
+  Carriers = {1, 2, 3, 4, 5, 6}
   NUp = 2
   NDown = 2
-  MaxFaults = 12
+  MaxFaults = 4
 SPECIFICATION GenSpec
 INVARIANTS TypeOK PrefixDelivered OnlyOwnSegments OneAcceptPerSession OneCurrent NeverDead
 CHECK_DEADLOCK FALSE
